@@ -141,7 +141,12 @@ def eval_header_decode(repo, cls_name: str, data: bits.SymBytes):
     f = repo.method(cls_name, "decode", inherited=False)
     param = f.node.args.args[1].arg
     ev = bits.Evaluator(repo, f, {param: data, "cls": None}, {})
-    out = ev.run()
+    try:
+        out = ev.run()
+    except bits.NeedDecision as exc:
+        # decoding is the inverse of the bit layout for every header: a branch on the *values* of the fields makes some
+        # headers decode to other fields than were sent (and the block checksum is verified over the re-encoded header)
+        raise bits.LayoutViolation(f"the decoded fields depend on a test of field values (`{exc}`): some received headers are rewritten while decoding") from exc
     if not isinstance(out, bits.Obj):
         raise AnalysisError(f"{cls_name}.decode did not evaluate to a constructor call: {out!r}")
     return f, out
